@@ -321,8 +321,7 @@ def snapshot(store) -> dict:
         return {k: bytes(v.to_bytes()) for k, v in store._store_dict.items()}
     if isinstance(store, WrapperStore):
         return snapshot(store._store)
-    root = getattr(store, "root", store)
-    root = Path(str(root))
+    root = Path(str(store)) if isinstance(store, (str, Path)) else Path(str(getattr(store, "root")))
     out = {}
     if root.exists():
         for dp, dn, fn in os.walk(root):
